@@ -479,6 +479,11 @@ def check_property(mod, world, tier="quick", seed=0):
         "explanation": getattr(mod, "EXPLANATION", "") + (" Level is 'other' because this run did not discharge every obligation or hit a recorded known finding." if level != "proof" else ""),
         "feasibility_unknown": sum(s.get("feas_unknown", 0) for s in stats),
         "solver_secs": round(sum(o["secs"] for o in obligs), 3),
+        # head-room against the per-obligation time limit (20 s): slow queries are the ones that flip under load
+        "slowest_obligations": [{"obligation": o["name"], "unit": o["unit"], "secs": round(o["secs"], 2)}
+                                for o in sorted(real, key=lambda o: -o["secs"])[:5]],
+        "relational_units": sum(1 for s in stats if s.get("relational")),
+        "units_outside_the_subset": [{"unit": n, "why": e[:160]} for n, e in unsupported_units],
     }
     if bounded is not None:
         cov["bounded"] = bounded
